@@ -828,6 +828,26 @@ def weave_fn(src, item, rules, rw, spec=None, result_name=None, loops=None, inse
                 add(lo_ + 1, "\n" + text + "\n")
             elif p[2] == "body_end":
                 add(lc_, "\n" + text + "\n")
+            elif p[2] == "iter":
+                # R8: name the ghost iterator of a `for` loop: `for x in EXPR` -> `for x in <name>: EXPR` (Verus syntax;
+                # ghost only, the executable iteration is unchanged).  text = the name.
+                if toks[kw].text != "for":
+                    raise ExtractError("loop %d of fn %s is not a for loop" % (k, item.name))
+                q = kw + 1
+                found = None
+                while q < lo_:
+                    tq = toks[q]
+                    if tq.kind == "punct" and tq.text in ("(", "["):
+                        q = match_close(toks, q) + 1
+                        continue
+                    if tq.kind == "ident" and tq.text == "in":
+                        found = q + 1
+                        break
+                    q += 1
+                if found is None:
+                    raise ExtractError("no `in` in for header of loop %d of fn %s" % (k, item.name))
+                add(found, " " + text.strip() + ": ")
+                _count(rw, "R8.ghost_iterator_named")
             else:
                 raise ExtractError("bad position %s" % pos)
         elif p[0] == "stmt" and len(p) == 3:
